@@ -483,7 +483,16 @@ pub fn accepts(prop: &str, v: &Viol, ops: &[OpRec]) -> bool {
                 || in_list(&["quiescent_try_send_mismatch", "quiescent_try_recv_mismatch", "quiescent_drain_mismatch"])
         }
         "C14" => {
-            in_list(&["try_waited", "realtime_unbounded", "realtime_done_without_lock", "waited_inside_critical_section"])
+            in_list(&[
+                "try_waited",
+                "realtime_unbounded",
+                "realtime_done_without_lock",
+                "waited_inside_critical_section",
+                // drain_into "reports exactly what moved"
+                "drain_count_mismatch",
+                "drained_sender_failed",
+                "quiescent_drain_mismatch",
+            ])
                 || (in_list(LEDGER_ALL) && opk.map(|o| o.k.is_try()).unwrap_or(false))
                 || (p == "stuck_illegit" && opk.map(|o| o.k.is_try()).unwrap_or(false))
                 || in_list(&["quiescent_try_send_mismatch", "quiescent_try_recv_mismatch", "quiescent_observer_mismatch"])
